@@ -4,6 +4,8 @@ package ctlog
 
 import (
 	"context"
+	"crypto/x509"
+	"encoding/base64"
 	"errors"
 	"fmt"
 	"strings"
@@ -295,7 +297,7 @@ func TestVerifC06Startup(t *testing.T) {
 		_, _, alt := simKeyPair()
 		kind := rapid.SampledFrom([]string{"create-clean", "create-over-lock", "create-over-storage", "create-over-both", "create-concurrent",
 			"clean", "behind-with-staging", "behind-without-staging", "storage-ahead", "same-size-other-root", "foreign-key-storage", "foreign-key-lock",
-			"foreign-name", "extension-line", "missing-checkpoint", "missing-edge-tile", "missing-data-tile", "lock-missing"}).Draw(t, "state")
+			"foreign-name", "foreign-origin-same-key", "extension-line", "missing-checkpoint", "missing-edge-tile", "missing-data-tile", "lock-missing"}).Draw(t, "state")
 		fail := func(f string, a ...any) {
 			t.Fatalf("C06 violated in start-up state %q: %s", kind, fmt.Sprintf(f, a...))
 		}
@@ -406,6 +408,30 @@ func TestVerifC06Startup(t *testing.T) {
 				s.w.lock[id] = c06Sign(cfgAlt, lc.Size, lc.Root, lc.Time)
 			} else {
 				s.w.objs["checkpoint"] = c06Sign(cfgAlt, lc.Size, lc.Root, lc.Time)
+			}
+		case "foreign-origin-same-key":
+			// The RFC 6962 tree head signature does not cover the origin: take the genuine checkpoint, keep only the
+			// signature line of the log key and change the origin line (a checkpoint of another log run with the same key).
+			where := rapid.SampledFrom([]string{"lock", "storage"}).Draw(t, "where")
+			genuine := s.w.lock[id]
+			n, err := vfref.ParseNote(genuine)
+			if err != nil {
+				t.Fatalf("VERIF-INCONCLUSIVE: %v", err)
+			}
+			spki, _ := x509.MarshalPKIXPublicKey(&s.key.PublicKey)
+			kh := vfref.RFC6962KeyHash(simLogName, spki)
+			var line string
+			for _, sg := range n.Sigs {
+				if sg.Name == simLogName && sg.Hash == kh {
+					raw := append([]byte{byte(kh >> 24), byte(kh >> 16), byte(kh >> 8), byte(kh)}, sg.Sig...)
+					line = "— " + sg.Name + " " + base64.StdEncoding.EncodeToString(raw) + "\n"
+				}
+			}
+			forged := []byte(vfref.FormatCheckpointText("other.example/log", lc.Size, lc.Root) + "\n" + line)
+			if where == "lock" {
+				s.w.lock[id] = forged
+			} else {
+				s.w.objs["checkpoint"] = forged
 			}
 		case "extension-line":
 			s.w.objs["checkpoint"] = c06SignExt(s.config(s.newProc()), lc)
